@@ -830,6 +830,53 @@ func runRec(c *core.Ctx) []core.Obligation {
 			}
 		}
 	}
+	// and a decoder method that calls another decoder method does so on its own decoder: a fresh
+	// decoder{…} literal carries neither the parse flags (UseNumber, zero-copy options, …) nor —
+	// unless copied by hand — the depth
+	{
+		nRecv, badRecv := 0, ""
+		for _, fn := range c.RepoFunctions() {
+			recv := fn.Signature.Recv()
+			if recv == nil || namedKey(recv.Type()) != "json.decoder" || fn.Synthetic != "" || fn.Blocks == nil || len(fn.Params) == 0 {
+				continue
+			}
+			self := fn.Params[0]
+			for _, ci := range callsIn(fn) {
+				g := staticCallee(ci.Common())
+				if g == nil || g.Signature.Recv() == nil || namedKey(g.Signature.Recv().Type()) != "json.decoder" || len(ci.Common().Args) == 0 {
+					continue
+				}
+				// the value decoders; the scanners (parseNumber, parseString, …) are also run on text
+				// other than the input — an unquoted literal — for which the input's hints do not hold
+				if !(g.Name() == "parse" || strings.HasPrefix(g.Name(), "decode")) {
+					continue
+				}
+				nRecv++
+				a0 := ci.Common().Args[0]
+				own := a0 == ssa.Value(self)
+				if ld, ok := a0.(*ssa.UnOp); ok && ld.Op == token.MUL {
+					if cell := cellOf(ld.X); cell != nil {
+						for _, sv := range cellStores(cell) {
+							if sv == ssa.Value(self) {
+								own = true
+							}
+						}
+					}
+				}
+				if !own {
+					badRecv = c.InstrPos(ci) + " (" + shortName(fn) + " calls " + g.Name() + ")"
+				}
+			}
+		}
+		switch {
+		case nRecv == 0:
+			b.addP([]string{"C14", "C02"}, core.Undecided, "state-threaded:decoder-receiver", "-", "no call between decoder methods found")
+		case badRecv != "":
+			b.addP([]string{"C14", "C02", "C06"}, core.Violation, "state-threaded:decoder-receiver", badRecv, "a decoder method continues on a decoder other than its own at "+badRecv+": a decoder built on the spot has no parse flags, so below this point UseNumber, UseInt64, the zero-copy options and DisallowUnknownFields are forgotten (a number under a named empty-interface type comes back as float64 whatever the flags say)")
+		default:
+			b.addP([]string{"C14", "C02"}, core.Discharged, "state-threaded:decoder-receiver", "-", fmt.Sprintf("%d calls between decoder methods, each on the caller's own decoder", nRecv))
+		}
+	}
 	if nDropD == 0 {
 		b.addP([]string{"C06", "C02"}, core.Discharged, "state-threaded:decode", "-", "no decoder method re-enters Parse with a fresh state")
 	}
@@ -1060,6 +1107,74 @@ func runMemoKey(c *core.Ctx) []core.Obligation {
 				b.addP([]string{"C09", "C01"}, core.Violation, ckey, bad, "a type-compiler function reads the process-wide codec cache at "+bad+": the cache is keyed by the type alone, but the codec of a component depends on whether it is addressable (pointer-receiver MarshalJSON/MarshalText of slice elements, of fields of addressable structs) — the codec compiled for []T then depends on whether Marshal(T{}) or Unmarshal(&T) ran first, and two goroutines racing on first use get different encodings for the life of the process")
 			} else {
 				b.addP([]string{"C09", "C01"}, core.Discharged, ckey, "-", fmt.Sprintf("none of the %d type-compiler functions calls cacheLoad", len(nodes)))
+			}
+		}
+		// an entry found in the memo may be one that is still being compiled (that is what cuts the
+		// recursion): a compiler function that gets a description back from a memo-answering compiler
+		// may keep the pointer, and may read it when the codec runs, but must not read its contents
+		// while compiling — they are not there yet for a type that contains itself
+		if spec.pkg == "json" {
+			ikey := key + ":in-progress-entry-not-read"
+			answers := map[*ssa.Function]bool{}
+			for _, fn := range nodes {
+				mp := memoParam(fn)
+				for _, blk := range fn.Blocks {
+					for _, ins := range blk.Instrs {
+						lk, ok := ins.(*ssa.Lookup)
+						if !ok || lk.X != ssa.Value(mp) {
+							continue
+						}
+						for _, r := range returnsOf(fn) {
+							for _, res := range r.Results {
+								if dependsOn(res, func(x ssa.Value) bool { return x == ssa.Value(lk) }) {
+									answers[fn] = true
+								}
+							}
+						}
+					}
+				}
+			}
+			bad, sites := "", 0
+			for _, fn := range nodes {
+				for _, ci := range callsIn(fn) {
+					g := staticCallee(ci.Common())
+					call, isCall := ci.(*ssa.Call)
+					if g == nil || !answers[g] || !isCall || g == fn {
+						continue
+					}
+					sites++
+					// loads of a field of the returned description, in the compiler's own body
+					for _, blk := range fn.Blocks {
+						for _, ins := range blk.Instrs {
+							fa, ok := ins.(*ssa.FieldAddr)
+							if !ok {
+								continue
+							}
+							fromCall := false
+							for _, o := range origins(fa.X) {
+								if o == ssa.Value(call) {
+									fromCall = true
+								}
+							}
+							if !fromCall || fa.Referrers() == nil {
+								continue
+							}
+							for _, ref := range *fa.Referrers() {
+								if u, isLoad := ref.(*ssa.UnOp); isLoad && u.Op == token.MUL {
+									bad = fmt.Sprintf("%s (%s reads .%s of what %s returned)", c.InstrPos(u), shortName(fn), fieldNameOf(fa), g.Name())
+								}
+							}
+						}
+					}
+				}
+			}
+			switch {
+			case bad != "":
+				b.addP([]string{"C01"}, core.Violation, ikey, bad, "a type compiler reads, while compiling, the contents of a description it got from the memo: "+bad+" — for mutually recursive types the description is the one still under construction, its field list is empty, and the fields promoted through the embedded pointer are lost: type A struct{B *B; X int}; type B struct{*A; Y int}; Marshal(&A{B: &B{A: &A{X: 1}, Y: 2}, X: 3}) gives {\"B\":{\"Y\":2},\"X\":3}, encoding/json {\"B\":{\"B\":null,\"X\":1,\"Y\":2},\"X\":3}")
+			case sites == 0:
+				b.addP([]string{"C01"}, core.Info, ikey, "-", "no compiler function calls a memo-answering compiler")
+			default:
+				b.addP([]string{"C01"}, core.Discharged, ikey, "-", fmt.Sprintf("%d call(s) of memo-answering compilers: the contents of the result are not read at compile time", sites))
 			}
 		}
 		// the memo is threaded: a compiler function hands its own memo to the compiler functions
